@@ -19,6 +19,29 @@ use fastrace::prelude::*;
 
 use crate::orch::CapReporter;
 use crate::rng::Rng;
+use std::sync::atomic::{AtomicBool, AtomicU64, Ordering};
+
+/// captures the batches; when `stall_ms` is non-zero the next non-empty report call blocks for
+/// that long (once), with `in_report` raised meanwhile: a slow reporter
+struct LiveReporter {
+    reports: Arc<Mutex<Vec<Vec<SpanRecord>>>>,
+    stall_ms: Arc<AtomicU64>,
+    in_report: Arc<AtomicBool>,
+}
+impl fastrace::collector::Reporter for LiveReporter {
+    fn report(&mut self, spans: Vec<SpanRecord>) {
+        let nonempty = !spans.is_empty();
+        self.reports.lock().unwrap().push(spans);
+        if nonempty {
+            let ms = self.stall_ms.swap(0, Ordering::SeqCst);
+            if ms > 0 {
+                self.in_report.store(true, Ordering::SeqCst);
+                std::thread::sleep(Duration::from_millis(ms));
+                self.in_report.store(false, Ordering::SeqCst);
+            }
+        }
+    }
+}
 
 fn key(r: &SpanRecord) -> (u128, String) {
     (r.trace_id.0, r.name.to_string())
@@ -28,7 +51,10 @@ pub fn live(seed: u64, n: usize, out: &mut dyn Write) {
     fastrace::verif::set_callback(None);
     let reports: Arc<Mutex<Vec<Vec<SpanRecord>>>> = Arc::new(Mutex::new(Vec::new()));
     let interval = Duration::from_millis(20);
-    fastrace::set_reporter(CapReporter(reports.clone()), Config::default().report_interval(interval));
+    let stall_ms = Arc::new(AtomicU64::new(0));
+    let in_report = Arc::new(AtomicBool::new(false));
+    fastrace::set_reporter(LiveReporter { reports: reports.clone(), stall_ms: stall_ms.clone(), in_report: in_report.clone() },
+        Config::default().report_interval(interval));
     let mut r = Rng::new(seed);
     let mut delivered: HashMap<(u128, String), usize> = HashMap::new();
     let drain = |delivered: &mut HashMap<(u128, String), usize>| {
@@ -41,6 +67,42 @@ pub fn live(seed: u64, n: usize, out: &mut dyn Write) {
     };
     for k in 0..n {
         let trace = ((seed as u128) << 64) | (k as u128 + 1);
+        if k % 6 == 3 {
+            // a slow reporter: one report call blocks while a short-lived thread finishes more
+            // spans (after that cycle's drain); a flush() called afterwards must still return
+            // only once those have been delivered, however long the reporter takes
+            let ms = if r.chance(1, 2) { 700 } else { 150 };
+            let root = Span::root(format!("slow-root-{k}"), SpanContext::new(TraceId(trace), SpanId(7)));
+            let first = Span::enter_with_parent(format!("slow-first-{k}"), &root);
+            let late = Span::enter_with_parent(format!("slow-late-{k}"), &root);
+            stall_ms.store(ms, Ordering::SeqCst);
+            drop(first);
+            let t0 = Instant::now();
+            while !in_report.load(Ordering::SeqCst) && t0.elapsed() < Duration::from_millis(3000) {
+                std::thread::sleep(Duration::from_millis(1));
+            }
+            let stalled = in_report.load(Ordering::SeqCst);
+            let h = std::thread::spawn(move || {
+                {
+                    let _g = late.set_local_parent();
+                    let _l = LocalSpan::enter_with_local_parent(format!("slow-local-{k}"));
+                }
+                drop(late);
+            });
+            let _ = h.join();
+            drop(root);
+            let t1 = Instant::now();
+            fastrace::flush();
+            let flush_ms = t1.elapsed().as_millis();
+            drain(&mut delivered);
+            let expected: Vec<(u128, String)> = ["slow-root", "slow-first", "slow-late", "slow-local"].iter().map(|n| (trace, format!("{n}-{k}"))).collect();
+            let missing: Vec<&String> = expected.iter().filter(|e| delivered.get(*e).copied().unwrap_or(0) == 0).map(|e| &e.1).collect();
+            let dup: Vec<&String> = expected.iter().filter(|e| delivered.get(*e).copied().unwrap_or(0) > 1).map(|e| &e.1).collect();
+            let verdict = if missing.is_empty() && dup.is_empty() { "delivered-once".to_string() } else { format!("VIOLATION missing={:?} duplicated={:?}", missing, dup) };
+            let _ = writeln!(out, "L scenario={} slow-reporter stall_ms={} stalled={} flush_ms={} => {}", k, ms, stalled, flush_ms, verdict);
+            stall_ms.store(0, Ordering::SeqCst);
+            continue;
+        }
         let use_flush = r.chance(1, 2);
         let nthreads = 1 + r.below(3);
         let mut expected: Vec<(u128, String)> = vec![];
